@@ -42,13 +42,18 @@ def worker(kp, job):
             optsets.append(o)
         optsets.append({'include': list(CATS)})
         optsets.append({'exclude': []})
+        # nothing selected: an empty include list is a selection of nothing (not "no filter")
+        optsets.append({'include': []})
+        optsets.append({'include': [], 'exclude': rng.sample(CATS, rng.randint(0, 2))})
     records = []
     base = docs.impl_dumps(kp, doc, encoding='ekern')
     for o in optsets:
         o = dict(o)
         o['encoding'] = 'ekern'
         r = optprops.evaluate(kp, g, doc, bad, text, o, mode, clause='filter')
-        if set(o.get('include') or CATS) >= set(CATS) and not o.get('exclude') and r['impl'] != base:
+        if 'include' in o and not spec.closure(kp, o.get('include'), o.get('exclude')) and r['impl'] != 'ok:':
+            r['viol'].append(('filter', f'nothing is selected ({optprops.fmt(o)}) but the export is not empty: {r["impl"][3:60]!r}', {'text': text, 'options': o}))
+        if set(o['include'] if 'include' in o else CATS) >= set(CATS) and not o.get('exclude') and r['impl'] != base:
             r['viol'].append(('identity', f'include=all / exclude=nothing changes the export ({optprops.fmt(o)})', {'text': text, 'options': o}))
         records.append(r)
     # one exporter and one options object serving every selection of this document (the selection re-assigned in
